@@ -6,6 +6,7 @@ toolchain go1.23.5
 
 require (
 	github.com/bbva/qed v0.0.0
+	github.com/hashicorp/raft v1.1.1
 	pgregory.net/rapid v1.3.0
 )
 
@@ -46,7 +47,6 @@ require (
 	github.com/hashicorp/golang-lru v0.5.0 // indirect
 	github.com/hashicorp/hcl v1.0.0 // indirect
 	github.com/hashicorp/memberlist v0.1.5 // indirect
-	github.com/hashicorp/raft v1.1.1 // indirect
 	github.com/hashicorp/raft-boltdb v0.0.0-20171010151810-6e5ba93211ea // indirect
 	github.com/imdario/mergo v0.3.7 // indirect
 	github.com/inconshreveable/mousetrap v1.0.0 // indirect
